@@ -43,38 +43,9 @@ let jderr_name = function
 
 let cid_ok (c : n list) : bool = c <> []
 
-(* ---- json_safe, as the property quantifies *)
-let rec no_dup_keys = function
-  | [] -> true
-  | (k, _) :: r -> not (List.exists (fun (k', _) -> k = k') r) && no_dup_keys r
-
-let slash = [n_of_int 47]
-let bytes_word = List.map n_of_int [98; 121; 116; 101; 115]
-
-let reserved_shape (m : (n list * dm) list) : bool =
-  match m with
-  | [ (k, DString _) ] when k = slash -> true
-  | [ (k, DMap [ (k2, DString _) ]) ] when k = slash && k2 = bytes_word -> true
-  | _ -> false
-
-let rec jdepth (v : dm) : int =
-  match v with
-  | DList l -> 1 + List.fold_left (fun a x -> max a (jdepth x)) 0 l
-  | DMap m -> 1 + List.fold_left (fun a (_, x) -> max a (jdepth x)) 0 m
-  | DBytes _ | DLink _ -> 1
-  | _ -> 0
-
-let rec json_safe (v : dm) : bool =
-  match v with
-  | DNull | DBool _ -> true
-  | DInt z -> in_int64 z
-  | DFloat f -> f64_finite f
-  | DString s -> utf8_valid s
-  | DBytes _ -> true
-  | DLink c -> cid_ok c
-  | DList l -> List.for_all json_safe l
-  | DMap m -> no_dup_keys m && not (reserved_shape m)
-              && List.for_all (fun (k, x) -> utf8_valid k && json_safe x) m
+(* ---- json_safe and jdepth are the extracted predicates the theorems quantify over *)
+let json_safe_full (v : dm) : bool = json_safe cid_ok (fun _ -> true) v
+let depth_ok (v : dm) : bool = int_of_n (jdepth v) <= 1024
 
 let rec floats_of (v : dm) (acc : n list) : n list =
   match v with
@@ -161,11 +132,15 @@ let () =
               | Some th ->
                 let t = bytes_of_hex th in
                 let a1 = (parse_float_ocaml t = Some f) in
-                let a2 = json_number t && (has_dot_or_e t = not (f64_integral_small f))
-                         && int_of_nat (int_prefix_len t) <= (if f64_integral_small f then 21 else 19) in
+                let a2 = float_text_ok f t in
                 if not (a1 && a2) then fails := "float_text_assumption" :: !fails)
           (floats_of v []);
-        (if codec = "dagjson" && json_safe v && jdepth v <= 1024 then
+        (* the CID law sampled on every link of the value *)
+        Hashtbl.iter (fun bin str ->
+            let sb = bytes_of_hex str in
+            let back = (match Hashtbl.find_opt ptab str with Some "!" | None -> None | Some t -> Some t) in
+            if back <> Some bin || not (utf8_valid sb) then fails := "cid_text_assumption" :: !fails) ctab;
+        (if codec = "dagjson" && json_safe_full v && depth_ok v then
            match String.split_on_char '|' obs with
            | [eb; ed] ->
              if String.length eb < 3 || String.sub eb 0 3 <> "ok:" then fails := "encode_failed" :: !fails
